@@ -172,6 +172,7 @@ DirectEscape(x) == x.k = "pipe" /\ x.name \in {"escape", "raw"}     \* an explic
 (*   tests:     odd, even, divisible by(n), yes (always true)              *)
 Cb(S, kind, name, args) == Ev(S, [e |-> "cb", kind |-> kind, name |-> name, args |-> args, tname |-> S.name])
 
+FuncKnown(name) == name \in {"_p", "id", "nul"}
 CallFunc(name, args, S) ==
   CASE name = "_p" -> <<Str(<<>>), Ev(S, [e |-> "probe", k |-> (IF args = <<>> THEN Null ELSE args[1]),
                                           scope |-> Flatten(S), tname |-> S.name])>>
@@ -393,6 +394,8 @@ Eval(e, S) ==
                              IF p = 0 THEN <<ErrV, Fail(a[2])>>
                              ELSE LET S1 == RenderBlock(B2S(nb), p, PushOut(a[2])) IN
                                   IF ~Ok(S1) THEN <<ErrV, S1>> ELSE <<Str(TopOut(S1)), PopOut(S1)>>
+         (* an undeclared name fails before any argument is evaluated (exec.go evalFunction looks the name up first) *)
+         ELSE IF e.name \notin DOMAIN S.macros /\ ~FuncKnown(e.name) THEN <<ErrV, Fail(S)>>
          ELSE LET a == EvalList(e.args, S) IN
               IF ~Ok(a[2]) THEN <<ErrV, a[2]>>
               ELSE IF e.name \in DOMAIN a[2].macros THEN CallMacro(a[2].macros[e.name], a[1], a[2])
